@@ -106,10 +106,10 @@ Fixpoint last_write (k : key) (l : list wop) (acc : option (option value)) : opt
   end.
 
 (* crash-consistency of block data: a stored header comes with its body, its
-   total difficulty and the state of its root *)
+   total difficulty, the state of its root and its hash->number record *)
 Definition block_data_complete (d : disk) : Prop :=
   forall h hd, header_of d h = Some hd ->
-    body_of d h <> None /\ td_of d h <> None /\ has_state d (h_root hd) = true.
+    body_of d h <> None /\ td_of d h <> None /\ has_state d (h_root hd) = true /\ number_of d h <> None.
 
 (* what C04 asks of a reopened database *)
 Definition head_pointer_resolves (d : disk) : Prop :=
